@@ -64,6 +64,7 @@ def run(module, cfg, workers=8, env=None, timeout=600, simulate=None, depth=None
     res.cmd = " ".join(cmd)
     e = dict(os.environ)
     e.pop("JAVA_TOOL_OPTIONS", None)
+    e.setdefault("LONGSTR", "0")          # LangGen: long string atoms off unless a profile asks
     if env:
         e.update({k: str(v) for k, v in env.items()})
     t0 = time.time()
